@@ -64,7 +64,16 @@ def leg_t(mod):
     ok, tail = common.build_coq()
     st["build_ok"] = ok
     if not ok:
-        st["problems"].append("coq build failed: " + tail[-1500:])
+        # make -k builds everything that does not depend on the failing file: the failure concerns this property only when one of
+        # the modules it needs (its Properties file, the evaluation helpers of the correspondence leg) could not be rebuilt
+        needed = [m.replace(".", "/") + ".vo" for m in mod.THEOREMS] + ["Eval/FA.vo", "Eval/CFG.vo", "Eval/IG.vo"]
+        stale = [v for v in needed if os.path.exists(os.path.join(common.COQ, v[:-1]))
+                 and (subprocess.run(["make", "-q", v], cwd=common.COQ, capture_output=True).returncode != 0 or not common.vo_fresh(v[:-1]))]
+        if stale:
+            st["problems"].append("coq build failed (%s not rebuilt): %s" % (", ".join(stale), tail[-1500:]))
+        else:
+            st["unrelated_build_failure"] = tail[-600:]
+            st["build_ok"] = True           # everything this property needs was rebuilt
     st["lint"] = common.lint_coq()
     if st["lint"]:
         st["problems"].append("lint: " + "; ".join(st["lint"][:5]))
@@ -217,7 +226,8 @@ def main():
         "hash_seeds": ctx.hashseeds,
         "known_findings_seen": ctx.known_seen,
         "notes": ctx.notes,
-        "legT_problems": lt["problems"],
+        "legT_problems": lt["problems"] + (["(not counted) a Coq file this property does not depend on failed to build: " + lt["unrelated_build_failure"]]
+                                           if lt.get("unrelated_build_failure") else []),
     }
     ev = {"property_id": prop, "tier": tier, "seed": seed, "level": level, "coverage": cov,
           "assumptions": mod.ASSUMPTIONS, "wall_s": round(wall, 2), "violations": 1 if status else 0}
